@@ -121,6 +121,23 @@ func generate(w *mon.W) {
 			return
 		}
 	}
+	for _, s := range gen.RepeatedTokenSources() {
+		s := s
+		w.Do(s, func(r *mon.R) { Check(s, r) })
+	}
+	// ordered triples whose middle is a punctuation mark or nothing: a token is
+	// scanned the same whatever the two tokens before it were
+	for i, a := range lexemes {
+		for _, mid := range []string{".", ",", "(", "[", "=", "-", "|", " . ", ". "} {
+			for _, b := range lexemes {
+				s := a + mid + b
+				w.Do(s, func(r *mon.R) { Check(s, r) })
+			}
+		}
+		if i%16 == 0 && w.Stopped() {
+			return
+		}
+	}
 	// every integer in the neighbourhood of the widths numbers are stored in
 	// (2^31, 2^32, 2^53, 2^63, 2^64, 10^19, 10^20), in decimal, padded decimal
 	// and hexadecimal: the last digit matters for overflow checks
